@@ -390,6 +390,14 @@ def cnorm(node):
         return s
 
 
+class _Break(Exception):
+    pass
+
+
+class _Continue(Exception):
+    pass
+
+
 class Closure:
     def __init__(self, node, env):
         self.node, self.env = node, env
@@ -457,6 +465,37 @@ class Interp(Evaluator):
 
     def ev_Lambda(self, e):
         return Closure(e, self.env)
+
+    def ev_Dict(self, e):
+        if any(k is None for k in e.keys):
+            raise AnalysisError("dictionary unpacking outside the abstract domain")
+        return {self._key(self.ev(k)): self.ev(v) for k, v in zip(e.keys, e.values)}
+
+    @staticmethod
+    def _key(k):
+        if isinstance(k, BV):
+            raise AnalysisError("bit-vector used as a dictionary key")
+        try:
+            hash(k)
+        except TypeError:
+            raise AnalysisError("unhashable dictionary key in the evaluated fragment")
+        return k
+
+    def ev_DictComp(self, e):
+        if len(e.generators) != 1 or e.generators[0].is_async:
+            raise AnalysisError(f"comprehension outside the abstract domain: {norm(e)[:60]}")
+        g = e.generators[0]
+        saved = dict(self.env)
+        out = {}
+        try:
+            for v in self.iter_values(g.iter):
+                self.store(g.target, v, e)
+                if all(self.ev(c) for c in g.ifs):
+                    out[self._key(self.ev(e.key))] = self.ev(e.value)      # later entries overwrite earlier ones
+        finally:
+            self.env.clear()
+            self.env.update(saved)
+        return out
 
     def ev_ListComp(self, e):
         if len(e.generators) != 1 or e.generators[0].is_async:
@@ -543,6 +582,8 @@ class Interp(Evaluator):
             return ('return', r.value)
         except Raised as r:
             return ('raise', r.what)
+        except (_Break, _Continue):
+            raise AnalysisError("break / continue outside a loop in the evaluated fragment")
         return ('fall', None)
 
     def tick(self):
@@ -599,8 +640,15 @@ class Interp(Evaluator):
                 raise Raised('ValueError: range step 0')
         if isinstance(it, ast.Call) and cnorm(it.func) == 'reversed' and len(it.args) == 1 and not it.keywords:
             return list(reversed(self.iter_values(it.args[0])))
+        if isinstance(it, ast.Call) and cnorm(it.func) == 'enumerate' and 1 <= len(it.args) <= 2 and not it.keywords:
+            start = self.ev(it.args[1]) if len(it.args) == 2 else 0
+            return [(start + k, v) for k, v in enumerate(self.iter_values(it.args[0]))]
+        if isinstance(it, ast.Call) and cnorm(it.func) == 'zip' and it.args and not it.keywords:
+            return [tuple(x) for x in zip(*[self.iter_values(a) for a in it.args])]
         v = self.ev(it)
         if isinstance(v, (list, tuple)):
+            return list(v)
+        if isinstance(v, dict):
             return list(v)
         raise AnalysisError(f"loop iterable outside the abstract domain: {norm(it)}")
 
@@ -614,14 +662,24 @@ class Interp(Evaluator):
                     raise AnalysisError("while-else outside the abstract domain")
                 while self.ev(st.test):
                     self.tick()
-                    self.block(st.body)
+                    try:
+                        self.block(st.body)
+                    except _Continue:
+                        continue
+                    except _Break:
+                        break
             elif isinstance(st, ast.For):
                 if st.orelse:
                     raise AnalysisError("for-else outside the abstract domain")
                 for v in self.iter_values(st.iter):
                     self.tick()
                     self.store(st.target, v, st)
-                    self.block(st.body)
+                    try:
+                        self.block(st.body)
+                    except _Continue:
+                        continue
+                    except _Break:
+                        break
             elif isinstance(st, ast.Return):
                 raise Returned(None if st.value is None else self.ev(st.value))
             elif isinstance(st, ast.Raise):
@@ -637,6 +695,10 @@ class Interp(Evaluator):
                 self.aug(st)
             elif isinstance(st, ast.Pass):
                 pass
+            elif isinstance(st, ast.Continue):
+                raise _Continue()
+            elif isinstance(st, ast.Break):
+                raise _Break()
             elif isinstance(st, ast.Expr) and isinstance(st.value, ast.Constant):
                 pass
             elif isinstance(st, ast.Expr) and isinstance(st.value, ast.Call):
